@@ -413,8 +413,10 @@ class LoaderGroup(Generic[_K, _L]):
         all_results = da.compute(all_tasks)[0]
         out = DataFrameDict()
         for key, result in zip(keys, all_results):
-            # one inner array per function (= column), whatever the number of molecules
-            out[key] = pl.DataFrame(np.array(result), schema=schema, orient="col")
+            # one inner list per function (= column), whatever the number of molecules
+            out[key] = pl.DataFrame(
+                {name: np.asarray(col) for name, col in zip(schema, result)}
+            )
         return out
 
     def fsc(
